@@ -284,7 +284,8 @@ def check_one(sh, kind, toks, res, i, fail):
             # the loop may only stop when there is room or nothing can be evicted
             n_present = len(sh.present())
             if n_present >= limit and any(sh.free(c) for c in sh.vals):
-                fail(['C07'], i, f'lookup proceeded with {n_present} entries >= limit {limit} although entries were evictable')
+                fail(['C07', 'C05'], i, f'lookup proceeded with {n_present} entries >= limit {limit} although entries were evictable '
+                                      f'(variant {var}: every variant must keep evicting until there is room or nothing is evictable)')
         isfree = sh.free(k)
         if outcome == 'guard':
             if sh.held(k):
@@ -443,6 +444,7 @@ def check_one(sh, kind, toks, res, i, fail):
         if exp is None:
             exp = 'end' if not st['items'] else 'pending'
         if res != exp:
+            m = None
             if res.startswith('item'):
                 m = re.match(r'item (\S+):(\d+)', res)
                 k = int(m.group(2)) if m else -1
@@ -451,7 +453,24 @@ def check_one(sh, kind, toks, res, i, fail):
                 if k not in sh.vals:
                     fail(['C11'], i, f'stream yielded key {k} which has no value')
             fail(['C11'], i, f'spoll answered {res}, expected {exp}')
-            raise Fail('stream diverged')
+            # resynchronise with what the implementation did, so that later requests can still be judged
+            if exp.startswith('item'):
+                w0 = int(exp.split()[1].split(':')[0])
+                sh.guards.pop(w0, None)
+            if res.startswith('item') and m:
+                w1 = int(m.group(1)) if m.group(1).isdigit() else None
+                if w1 is not None:
+                    st['items'].pop(w1, None)
+                    for q in sh.queue.values():
+                        if w1 in q:
+                            q.remove(w1)
+                    sh.guards[w1] = k
+            elif res == 'end':
+                for w1, k1 in list(st['items'].items()):
+                    if w1 in sh.queue.get(k1, []):
+                        sh.queue[k1].remove(w1)
+                st['items'].clear()
+                st['ready'] = []
     elif cmd == 'sdrop':
         sid = int(toks[1])
         st = sh.streams.pop(sid, None)
